@@ -119,6 +119,16 @@ func (e *Engine) callNamed(st *State, fn *ssa.Function, args []Value, bind []Val
 		mf(e, st, args, depth, pos, k)
 		return
 	}
+	if name == "(*"+rosmarPkg+".HybridLogicalClock).Now" && e.curFn != name {
+		k0 := k
+		k = func(st *State, ret Value) {
+			if s, ok := ret.(VSym); ok {
+				st.casDraws = append(st.casDraws, s.T)
+				st.addTrace(TraceEv{Kind: "hlcnow", Pos: pos, Terms: map[string]Term{"cas": s.T}})
+			}
+			k0(st, ret)
+		}
+	}
 	inPkg := fn.Pkg == e.pkg || (fn.Pkg == nil && fn.Origin() != nil && fn.Origin().Pkg == e.pkg) ||
 		(fn.Parent() != nil && rootPkg(fn) == e.pkg)
 	if inPkg && len(fn.Blocks) > 0 {
@@ -408,7 +418,7 @@ func (e *Engine) lookup(st *State, fr *Frame, in *ssa.Lookup) bool {
 				val = sym(Ite(found, raw, zs.T))
 			} else if obj.ValSort == SJson {
 				// map[string]any: value is an opaque JSON value; absent -> nil interface
-				val = VAbs{Kind: "json", ID: e.nextID(), Data: Ite(found, raw, Term{"JNULL", SJson})}
+				val = VAbs{Kind: "json", ID: e.nextID(), Data: Ite(found, raw, mkT("JNULL", SJson))}
 			} else {
 				val = sym(raw)
 			}
@@ -504,10 +514,10 @@ func (e *Engine) mapValTerm(st *State, obj *MapObj, val Value) Term {
 		}
 	case VNil:
 		if obj.ValSort == SJson {
-			return Term{"JNULL", SJson}
+			return mkT("JNULL", SJson)
 		}
 		if obj.ValSort == SBytes {
-			return Term{"NULLB", SBytes}
+			return mkT("NULLB", SBytes)
 		}
 	case VIface:
 		if obj.ValSort == SJson {
